@@ -221,12 +221,13 @@ class GroupEpoched:
 
     def bound(self, tier):
         return ('2-D arrays (1..%d epochs of 400..800 samples, corpus signals) with axis=None: single option set vs flattened '
-                'analysis + epoch_df; per-epoch option lists re-labelled with their own thresholds' % (4 if tier == 'quick' else 6))
+                'analysis + epoch_df; per-epoch option lists re-labelled with their own thresholds, incl. lists whose entries are one and '
+                'the same dict object' % (4 if tier == 'quick' else 6))
 
     def gen(self, tier, seed):
         for rows in range(1, (4 if tier == 'quick' else 6) + 1):
             for L in (30, 400, 800):
-                for kwk in ('shared', 'list'):
+                for kwk in ('shared', 'list', 'aliased-loose', 'aliased-strict'):
                     for centre in ('peak', 'trough'):
                         yield dict(rows=rows, L=L, kw=kwk, centre=centre, seed=seed)
 
@@ -240,12 +241,20 @@ class GroupEpoched:
         from bycycle.burst import detect_bursts_cycles
         nrows = c['rows'] if c['L'] > 100 else 20 + c['rows']          # short epochs: some hold no cycle at all
         c = dict(c, rows=nrows)
-        flat = make_signal(FAMILIES[c['seed'] % len(FAMILIES)], c['seed'] + c['rows'], n=c['rows'] * c['L'])
+        flat = make_signal(FAMILIES[(c['seed'] + c['rows'] + c['L'] // 400) % len(FAMILIES)], c['seed'] + c['rows'], n=c['rows'] * c['L'])
         sigs = flat.reshape(c['rows'], c['L'])
         base = dict(center_extrema=c['centre'], threshold_kwargs=dict(TH_PRESETS['loose']),
                     find_extrema_kwargs=dict(filter_kwargs=dict(n_cycles=3)))
         if c['kw'] == 'shared':
             kws = base
+        elif c['kw'].startswith('aliased'):
+            # one and the same dict object at every position ([opts] * n): every epoch has these settings.  Settings far from
+            # the defaults on either side, so that falling back to the defaults shows on clean and on noisy signals alike
+            k = copy.deepcopy(base)
+            v = 0.0 if c['kw'] == 'aliased-loose' else 0.95
+            k['threshold_kwargs'] = dict(amp_fraction_threshold=v, amp_consistency_threshold=v, period_consistency_threshold=v,
+                                         monotonicity_threshold=v, min_n_cycles=1 if v == 0.0 else 3)
+            kws = [k] * c['rows']
         else:
             kws = []
             for e in range(c['rows']):
@@ -264,7 +273,7 @@ class GroupEpoched:
             return '%d epochs returned for %d rows' % (len(out), c['rows'])
         for e in range(c['rows']):
             exp = ref[e].copy()
-            if c['kw'] == 'list' and c['rows'] > 1:
+            if (c['kw'] == 'list' or c['kw'].startswith('aliased')) and c['rows'] > 1:
                 th = copy.deepcopy(kws0[e]['threshold_kwargs'])
                 exp = detect_bursts_cycles(exp, **th) if len(exp) else exp
             if len(exp) == 0 and len(out[e]) == 0:
